@@ -42,9 +42,10 @@ StateBad(e, sc) ==
      (IF ~IntactP(e.r1) THEN {"resolvable-model-not-intact-after-restart"} ELSE {})
 \cup (IF \E n \in DOMAIN sc.pre.man \ inv : n \notin DOMAIN e.r1.man \/ e.r1.man[n] # sc.pre.man[n]
          THEN {"uninvolved-model-changed"} ELSE {})
+\* (a redo that failed is repeated once: redo2; r2 is the store after the last of them and a restart)
 \cup (IF ~(e.redo = 200 \/ (sc.op.op = "delete" /\ e.redo = 404)) THEN {"redo-failed"} ELSE {})
-\cup (IF e.redo = 200 /\ ~IntactP(e.r2) THEN {"resolvable-model-not-intact-after-redo"} ELSE {})
-\cup (IF (e.redo = 200 \/ e.redo = 404) /\ ~SameStore(ToSt(e.r2), ToSt(sc.ref), sc.noprune) THEN {"redo-does-not-converge"} ELSE {})
+\cup (IF (e.redo = 200 \/ e.redo2 = 200) /\ ~IntactP(e.r2) THEN {"resolvable-model-not-intact-after-redo"} ELSE {})
+\cup (IF (e.redo = 200 \/ e.redo = 404 \/ e.redo2 = 200) /\ ~SameStore(ToSt(e.r2), ToSt(sc.ref), sc.noprune) THEN {"redo-does-not-converge"} ELSE {})
 \cup (IF \E n \in DOMAIN sc.pre.man \ inv : n \notin DOMAIN e.r2.man \/ e.r2.man[n] # sc.pre.man[n]
          THEN {"uninvolved-model-changed-by-redo"} ELSE {})
 
@@ -53,7 +54,7 @@ StateDrift(e, sc) ==
       crash == ApplyAll(pre, SubSeq(sc.effects, 1, e.kn), StoredVer(sc))
       pred == RestartSt(crash, sc.noprune)
       listed == {e.r1.listed[i] : i \in DOMAIN e.r1.listed}
-  IN (IF e.src = "prefix" /\ (pred.man # e.r1.man \/ (~sc.noprune /\ pred.blobs # Good(e.r1))) THEN {"restart-result-differs-from-model"} ELSE {})
+  IN (IF e.src = "prefix" /\ ~sc.big /\ (pred.man # e.r1.man \/ (~sc.noprune /\ pred.blobs # Good(e.r1))) THEN {"restart-result-differs-from-model"} ELSE {})
   \cup (IF listed # {n \in DOMAIN e.r1.man : e.r1.man[n].ok} THEN {"listing-differs-from-readable-manifests"} ELSE {})
   \cup (IF \E n \in DOMAIN e.r1.show : e.r1.show[n] # 200 THEN {"listed-model-cannot-be-shown"} ELSE {})
 
@@ -61,7 +62,7 @@ Step ==
   /\ l <= Len(Trace) /\ l' = l + 1
   /\ LET e == Trace[l] IN
        IF e.ev = "scenario" THEN
-            /\ LET d == ScenDrift(e) IN (d # {}) => PrintT(<<"VFDRIFT", l, e.t, d>>)
+            /\ LET d == IF e.big THEN {} ELSE ScenDrift(e) IN (d # {}) => PrintT(<<"VFDRIFT", l, e.t, d>>)
             /\ nbad' = nbad
        ELSE IF e.ev = "state" THEN
             LET sc == ScenOf(e.t)
